@@ -372,8 +372,8 @@ class Ranges:
             return
         # assignment to an attribute/subscript that is a prefix of a tracked key invalidates it
         for k in list(st.vals):
-            if k != tkey and (k.startswith(tkey + ".") or k.startswith(tkey + "[")):
-                st.vals[k] = ISet.top()
+            if k != tkey and (k.startswith(tkey + ".") or k.startswith(tkey + "[") or k == "len(%s)" % tkey):
+                st.vals[k] = self.types.get(k, ISet.range(0, None) if k.startswith("len(") else ISet.top())
 
     def _kill(self, target, st):
         self._assign(target, None, st)
